@@ -102,6 +102,7 @@ InitG ==
   [ dispatched  |-> [t \in Task |-> 0],
     published   |-> {},                    \* datasets ever published by a worker
     purged      |-> {},                    \* datasets for which a purge was ever commanded
+    finished    |-> {},                    \* tasks whose worker really published the last output (ground truth of "completed")
     outstanding |-> {},                    \* unanswered commands: <<"x"|"f", d, src, tgt>>
     didwork     |-> FALSE,                 \* did this loop iteration command or wait
     flags       |-> {} ]                   \* names of violated clauses (see the invariants at the end)
@@ -247,7 +248,7 @@ FlushNext(fseq, pseq) ==
            (IF \E p \in fset : p[1] \notin x.held[p[2]] THEN {"fetch_source_lacks_dataset"} ELSE {})
       \cup (IF \E p \in Rng(pseq) : \E o \in newOut : o[2] = p[2] /\ o[3] = p[1]
             THEN {"purge_under_unanswered_command"} ELSE {})
-      \cup (IF \E d \in pds : ConsumersOf(d) \ c.done # {} THEN {"purge_before_consumers_done"} ELSE {})
+      \cup (IF \E d \in pds : ConsumersOf(d) \ g.finished # {} THEN {"purge_before_consumers_done"} ELSE {})
       \cup (IF \E d \in pds : d \in Ext /\ d \notin c.fetched THEN {"purge_before_delivery"} ELSE {})
       cs == [c EXCEPT
                !.pc     = "wait",
@@ -364,7 +365,7 @@ WorkerPublishNext(w) ==
   IN Pack(c, [x EXCEPT !.held    = [@ EXCEPT ![h] = @ \cup {d}],
                        !.events  = [@ EXCEPT ![h] = Append(@, [w |-> w, d |-> d, x |-> FALSE])],
                        !.running = [@ EXCEPT ![w] = IF i = Len(Outs[t]) THEN <<>> ELSE <<t, i + 1>>]],
-          [g EXCEPT !.published = @ \cup {d}])
+          [g EXCEPT !.published = @ \cup {d}, !.finished = IF i = Len(Outs[t]) THEN @ \cup {t} ELSE @])
 
 \* DataServer: next transmit / fetch command at host h
 DataCmdNext(h) ==
